@@ -4,7 +4,8 @@ import AioslskVerif.Proofs.Entitle
 
 Property theorems only (model: `Model/Entitle.lean` on `Model/Shares.lean`, `Model/Query.lean`, the
 generated transfer table and the generated entitlement constants; helpers: `Proofs/Entitle.lean`).
-The model is that of the code after `fixes/C08-excluded-phrase-case.patch`.
+The model is that of the code after `fixes/C08-excluded-phrase-case.patch` and
+`fixes/C08-reload-announces-removed.patch`.
 
 Reading (DESIGN.md): (1) the visible part of a search reply / shares reply for user `u` holds no
 item whose directory is locked for `u`; (2) no search reply holds an item whose lower-cased path
@@ -16,8 +17,15 @@ not COMPLETE / FAILED: untouched if it was aborted on the user's request, else A
 Blocked / File not shared (first that applies, in that order) iff that applies, and QUEUED again if
 it was aborted and nothing applies any more.
 
-Known finding (not repaired, see `C08_directory_listing_*`): `create_directory_reply` takes no
-user, so the files of a locked directory are listed to anybody who asks for that directory.
+(5) every way a change of the friends list, the block list or the shared directories reaches the
+managers — shares API, settings + `load_from_settings()`, in-place edits of the settings' lists, the
+user manager's poll of `settings.users.friends` / `.blocked`, a scan — requests such a cycle, and no
+request is lost before a cycle starts.
+
+Known findings (not repaired): `create_directory_reply` takes no user, so the files of a locked
+directory are listed to anybody who asks for that directory (`C08_directory_listing_*`); a polled
+setting that is changed and changed back within one polling interval of the user manager is never
+announced (`C08_settings_change_pending_partial`, `C08_flip_between_polls_counterexample`).
 -/
 namespace AioslskVerif.C08
 open AioslskVerif AioslskVerif.Transfer AioslskVerif.Entitle
